@@ -17,6 +17,7 @@
 From Tx Require Import Lib.Base Gen.Generated Model.PyVal Model.Marshal Model.Message
   Spec.WireSpec Spec.Readback Spec.Conforms Spec.WireTyped Spec.Grammar Spec.MsgSpec
   Proofs.MarshalProofs Proofs.MessageProofs.
+From Tx Require Import Model.MessageCur Model.FdFraming Model.MarshalCost Proofs.MessageCurProofs.
 From Coq Require Import Sorted.
 Local Open Scope N_scope.
 
@@ -261,3 +262,100 @@ Theorem C03_serials_exhausted :
     (4294967296 <= next)%Z ->
     exists e next', construct_st legacy fuel mt er au attrs body next fds = (Err e, next').
 Proof. exact c03_serials_exhausted. Qed.
+
+
+(* --- the current message.py -------------------------------------------------------------------- *)
+
+(* Model/MessageCur.v is one model of message.py as it is now (repairs D04, D27,
+   D35, D53, D60, D25: rawBody, endian, _otherFlags, the UInt32 wrapping of
+   reply_serial, newSerial=False); the harness compares every constructor call,
+   every parseMessage call and every bus-style re-marshal with it.  The models
+   the individual properties use agree with it wherever they overlap:
+   - MarshalCost.parse_gen / parse_message_v2 (C05) on every input (msg_part
+     drops the two extra components _otherFlags and rawBody);
+   - FdFraming.parse_message_fd false (C20) whenever the SIGNATURE field the
+     header decodes to is absent, empty, or a str of at most 255 characters
+     (sig_attr_ok);
+   - Message.parse_message false (this file, C04) when moreover there are no
+     descriptors: no list, or an empty one and a UNIX_FDS field, if any, that is an
+     integer (fds_trivial);
+   - Message.marshal_msg / marshal_msg_st / construct_st (this file) for the class
+     defaults endian 'l', _otherFlags 0, no rawBody, when reply_serial is stored
+     as the constructors store it and path / signature are plain str
+     (marshal_args_ok);
+   - _marshal(False, ...) writes self.serial and leaves the counter alone. *)
+Theorem C03_current_model_bridges :
+  (forall fh fb raw fds, msg_part (parse_cur_gen fh fb raw fds) = parse_gen fh fb raw fds) /\
+  (forall raw fds, msg_part (parse_message_cur_lin raw fds) = parse_message_v2 raw fds) /\
+  (forall fuel raw fds,
+     (forall attrs, header_attrs fuel raw fds = Ok attrs -> sig_attr_ok attrs) ->
+     msg_part (parse_message_cur fuel raw fds) = parse_message_fd false fuel raw fds) /\
+  (forall fuel raw fds,
+     (forall attrs, header_attrs fuel raw fds = Ok attrs -> sig_attr_ok attrs /\ fds_trivial attrs fds) ->
+     msg_part (parse_message_cur fuel raw fds) = parse_message false fuel raw fds) /\
+  (forall fuel mt er au attrs body serial fds,
+     marshal_args_ok attrs ->
+     marshal_msg_cur fuel mt 108 0 er au attrs body serial fds None = marshal_msg fuel mt er au attrs body serial fds) /\
+  (forall fuel mt er au attrs body self_serial next fds,
+     marshal_args_ok attrs ->
+     marshal_msg_cur_st fuel mt 108 0 er au attrs body true self_serial next fds None
+     = marshal_msg_st fuel mt er au attrs body next fds) /\
+  (forall fuel mt er au attrs body next fds,
+     marshal_args_ok attrs ->
+     construct_cur_st fuel mt er au attrs body next fds = construct_st false fuel mt er au attrs body next fds) /\
+  (forall fuel mt endian other er au attrs body self_serial next fds rb,
+     marshal_msg_cur_st fuel mt endian other er au attrs body false self_serial next fds rb
+     = (marshal_msg_cur fuel mt endian other er au attrs body self_serial fds rb, next)).
+Proof. exact current_model_bridges. Qed.
+
+(* the current parseMessage on the specification encoding of any well-typed wire
+   message (no descriptors): what C03_parse_foreign says, plus _otherFlags = the
+   flag bits other than 0x1 / 0x2 and rawBody = the body bytes *)
+Theorem C03_parse_foreign_current :
+  forall s fuel,
+    msg_wt [] s -> (msg_depth s <= fuel)%nat ->
+    parse_message_cur fuel (msg_enc s) (Some []) =
+      Ok ((Z.to_N (s_type s), s_serial s, expect_reply_of s, auto_start_of s,
+           attrs_of_fields [] (s_fields s), recovered_body [] s),
+          Z.land (s_flags s) (Z.lnot 3), msg_body s).
+Proof. exact parse_cur_refines. Qed.
+
+(* The re-marshal law the bus relies on (bus.py: parseMessage; msg.sender :=
+   unique name; msg.endian := byte 0; msg._marshal(False, rawBody=msg.rawBody)),
+   C14's "stamped".  For every well-typed wire message s (either byte order, any
+   field order, unknown codes, any flags byte) whose values _marshal accepts
+   (fwd_ok: a grammatical object path, strings without NUL): the forwarded bytes
+   are the specification encoding of [restamp u s] - the header fields of the
+   message type's class table, each with its last occurrence, the sender
+   replaced, everything else (byte order, type, flags byte, serial, body bytes)
+   unchanged - and they parse to that message: same type, serial, flags,
+   _otherFlags, decoded body and raw body. *)
+Theorem C03_remarshal_law :
+  forall s u fuel,
+    msg_wt [] s -> Forall fwd_ok (s_fields s) -> string_ok u = true ->
+    (msg_depth s <= fuel)%nat -> (msg_depth (restamp u s) <= fuel)%nat ->
+    len (msg_enc (restamp u s)) <= max_msg_len ->
+    exists m h p,
+      parse_message_cur fuel (msg_enc s) (Some []) = Ok m /\
+      remarshal_cur fuel (msg_enc s) u m = Ok (h, p, msg_body s, None) /\
+      h ++ p ++ msg_body s = msg_enc (restamp u s) /\
+      parse_message_cur fuel (msg_enc (restamp u s)) (Some []) =
+        Ok ((Z.to_N (s_type s), s_serial s, expect_reply_of s, auto_start_of s,
+             attrs_of_fields [] (s_fields (restamp u s)), recovered_body [] s),
+            Z.land (s_flags s) (Z.lnot 3), msg_body s).
+Proof. exact remarshal_law. Qed.
+
+(* ex_foreign (above) forwarded with sender ":1.42": the hypotheses hold, the
+   fields come out in class-table order without the unknown one, still big-endian *)
+Example C03_remarshal_nonvacuous :
+  msg_wt [] ex_foreign /\ Forall fwd_ok (s_fields ex_foreign) /\ string_ok ex_sender = true /\
+  (msg_depth ex_foreign <= 6)%nat /\ (msg_depth (restamp ex_sender ex_foreign) <= 6)%nat /\
+  len (msg_enc (restamp ex_sender ex_foreign)) <= max_msg_len /\
+  s_fields (restamp ex_sender ex_foreign)
+    = [(4%Z, TString, WStr [97; 46; 69]); (5%Z, TUInt32, WInt 9); (7%Z, TString, WStr ex_sender);
+       (8%Z, TSig, WStr [40; 121; 118; 41])] /\
+  exists m h p,
+    parse_message_cur 6 (msg_enc ex_foreign) (Some []) = Ok m /\
+    remarshal_cur 6 (msg_enc ex_foreign) ex_sender m = Ok (h, p, msg_body ex_foreign, None) /\
+    h ++ p ++ msg_body ex_foreign = msg_enc (restamp ex_sender ex_foreign) /\ hd 0 h = 66.
+Proof. exact remarshal_nonvacuous. Qed.
